@@ -113,6 +113,12 @@ def judge_pair(schema, i, version, base, derived, status, acc=None):
     if acc is not None:
         acc.st(traces=2)
     if vr and not vb:
+        # an exhibited case is re-built alone and strictly, so that the verdict 'accepted' does not depend on
+        # where the lax packed build attaches its errors
+        try:
+            VERSIONS[version](M.SCHEMA_HEAD + pair_decl(0, base, derived) + M.SCHEMA_TAIL)
+        except (XMLSchemaParseError, XMLSchemaModelError):
+            return None, label + '/refused-when-built-strictly'
         ws = ''.join(w) or '-'
         return (('C14 %s base=%s derived=%s witness=%s' % (version, M.show(base), M.show(derived), ws),
                  'restriction of %s to %s is accepted, but the child sequence %s is valid for the derived type and invalid for the base type'
@@ -295,6 +301,25 @@ def build_redef(version, form, pairs):
     return schema, base_schema, out
 
 
+def redef_strict_accepts(version, form, base, derived):
+    import os
+    import tempfile
+    d = os.path.join(tempfile.gettempdir(), 'c14_redef_strict_%d' % os.getpid())
+    os.makedirs(d, exist_ok=True)
+    try:
+        for fn, text in redef_texts(form, [(base, derived)]).items():
+            with open(os.path.join(d, fn), 'w') as f:
+                f.write(text)
+        try:
+            VERSIONS[version](os.path.join(d, 'a.xsd'))
+            return True
+        except (XMLSchemaParseError, XMLSchemaModelError):
+            return False
+    finally:
+        import shutil
+        shutil.rmtree(d, ignore_errors=True)
+
+
 def judge_redef(schema, base_schema, i, version, form, base, derived, status, acc=None):
     db, dr = regex.dfa_of(base, SIGMA), regex.dfa_of(derived, SIGMA)
     w = regex.shortest_not_included(dr, db, SIGMA)
@@ -310,6 +335,10 @@ def judge_redef(schema, base_schema, i, version, form, base, derived, status, ac
     if acc is not None:
         acc.st(traces=2)
     if vr and not vb:
+        # an exhibited case is re-built alone and strictly: a library that refuses it there did report the
+        # redefinition, wherever the lax packed build attached the error
+        if not redef_strict_accepts(version, form, base, derived):
+            return None, label + '/refused-when-built-strictly'
         ws = ''.join(w) or '-'
         return (('C14 %s redefine:%s base=%s derived=%s witness=%s' % (version, form, M.show(base), M.show(derived), ws),
                  'redefinition (%s) of %s by %s is accepted, but the child sequence %s is valid after the redefinition and invalid '
